@@ -16,8 +16,8 @@ const pBuiltinConn = "pkg/plugin/connector/builtin"
 
 func init() {
 	register(&Property{
-		ID:  "C09",
-		Run: runC09,
+		ID:          "C09",
+		Run:         runC09,
 		Explanation: "Decides the structural clauses that keep plugin reply shapes from crashing or wedging the engine: (R1) at every processor call boundary both 'more results than records' and 'fewer results than records' are diverted (refused or padded) before any positional use of the reply; (R2) the v1 destination acker indexes an ack batch only on an edge where that batch is known non-empty; (R3 = C08.R6) unknown / nil result kinds are refused; (R4) the retry recursion is entered only below the stall and attempt bounds, both of which return fatal coded errors; (R5) every call into a built-in connector implementation goes through the panic sandbox (tabled exception: the detached Run loop), whose goroutine recovers and answers on every path; (R6) the reconfigure hand-off answers exactly once on a buffered channel and the deferred-ack escalation never blocks without a cancellation arm; (R7) error records crossing the standalone plugin boundary are built with a non-nil error.",
 		NotDecided:  []string{"index arithmetic over plugin-controlled values in general", "hangs in general (liveness)", "panics inside a built-in connector's own detached Run loop"},
 		Assumptions: []string{"a deferred recover() in the same goroutine catches every panic of the sandboxed call"},
@@ -226,17 +226,7 @@ func c09R2(c *Ctx) {
 			collect(ia.X, 0)
 			// per source value: the index must be dominated, on the paths where that value is current, by a non-empty edge for it.
 			// Encoded as: gates = for every source value v, edges where len(v) != 0.
-			g := kit.NewGates().AddEdges(kit.CmpEdges(fn, func(b *ssa.BinOp) (bool, bool) {
-				if kit.IsLenOf(b.X, func(x ssa.Value) bool { return srcs[x] }) && kit.IsIntConst(b.Y, 0) {
-					switch b.Op {
-					case token.EQL, token.LEQ:
-						return true, false
-					case token.NEQ, token.GTR:
-						return true, true
-					}
-				}
-				return false, false
-			}), "len(acks) != 0")
+			g := kit.NewGates().AddEdges(kit.LenEdges(fn, func(x ssa.Value) bool { return srcs[x] }, 1, -1), "len(acks) != 0")
 			// a freshly fetched batch (an Extract of the Destination.Ack call) must itself be tested: remove gates that tested only an older value on paths through the fetch
 			fetchOK := true
 			for v := range srcs {
@@ -248,17 +238,7 @@ func c09R2(c *Ctx) {
 					continue
 				}
 				// every path from the fetch to the index passes a len(v)!=0 edge for THIS value
-				gv := kit.NewGates().AddEdges(kit.CmpEdges(fn, func(b *ssa.BinOp) (bool, bool) {
-					if kit.IsLenOf(b.X, func(x ssa.Value) bool { return x == v }) && kit.IsIntConst(b.Y, 0) {
-						switch b.Op {
-						case token.EQL, token.LEQ:
-							return true, false
-						case token.NEQ, token.GTR:
-							return true, true
-						}
-					}
-					return false, false
-				}), "")
+				gv := kit.NewGates().AddEdges(kit.LenEdges(fn, func(x ssa.Value) bool { return x == v }, 1, -1), "")
 				if kit.Reaches(ex, ia, gv) {
 					fetchOK = false
 				}
